@@ -319,6 +319,36 @@ func writeEvidence(e *Engine, outDir, prop, tier string, funcs []string, total, 
 		}
 	}
 	sort.Strings(notUnder)
+	lemmas := map[string][]string{}
+	coverStats := map[string]int{}
+	for _, r := range results {
+		if r == nil {
+			continue
+		}
+		if r.VC != nil {
+			for l, cs := range r.VC.lemmaClauses {
+				seen := map[string]bool{}
+				for _, c := range cs {
+					if !seen[c] {
+						seen[c] = true
+						lemmas[l] = append(lemmas[l], r.Name+": "+c)
+					}
+				}
+			}
+		}
+		for _, o := range r.Obligs {
+			if o.Kind == "cover" {
+				switch o.Result {
+				case "sat":
+					coverStats["reachable (model found)"]++
+				case "unsat":
+					coverStats["infeasible path"]++
+				default:
+					coverStats["not refuted (unknown)"]++
+				}
+			}
+		}
+	}
 	perFunc := map[string]any{}
 	for _, r := range results {
 		if r == nil {
@@ -353,6 +383,8 @@ func writeEvidence(e *Engine, outDir, prop, tier string, funcs []string, total, 
 			"glue_equalities_inferred":  glue,
 			"per_function":              perFunc,
 			"known_findings_hit":        knownHit,
+			"clauses_justified_by_lemma_not_checked_on_the_body": lemmas,
+			"cover_check_results":       coverStats,
 			"package_functions_without_contract": notUnder,
 			"samples":                   samples,
 			"explanation":               "every obligation is generated from go/ssa of /repo's working tree on this run and discharged by SMT; obligations counted per symbolic path",
